@@ -7,7 +7,8 @@ tools/bounds.py at that instruction, every reachable row has to be a pure byte s
 import re
 from asmdb import is_mem, parse_mem, REG64, VREG
 from common import AnalysisBroken
-import asmlin, bounds, provenance
+import asmlin, bounds, provenance, remint
+from math import inf
 
 
 def pure_shift(row):
@@ -27,6 +28,35 @@ def pure_shift(row):
     return None
 
 
+def remainder_rows(R, RI, u, f, sym, i):
+    """rows reachable through a table pointer whose offset REMINT bounds by constants; False when it cannot"""
+    pm = parse_mem(next(o for o in i.ops if is_mem(o)))
+    if not pm or pm['rip'] or pm['index'] or not pm['base']:
+        return False
+    got = RI.offset_of(i.addr, pm['base'])
+    if got is None:
+        return False
+    lea, (lo, hi, md, rr) = got
+    if lo in (inf, -inf) or hi in (inf, -inf) or hi - lo > 4096:
+        return False
+    tsec, tsym, off0 = RI.base[lea]
+    y = u.elf.syms.get(tsym)
+    data = u.elf.secbytes(tsec) if tsec else None
+    if y is None or data is None:
+        raise AnalysisBroken('T-SHF-ROWS: %s: cannot read the data of %s' % (sym, tsym))
+    for o in range(lo, hi + 1):
+        if md > 1 and (o - rr) % md:
+            continue
+        R.instance()
+        at = y.value + off0 + (pm['disp'] or 0) + o
+        row = data[at:at + 16] if 0 <= at and at + 16 <= len(data) else None
+        d = pure_shift(row) if row is not None else None
+        R.check(d is not None, '%s: %s' % (u.name, u.where(i, f)), '%s: behind the fold loops the remainder register lets this load reach %s%+d, %s: the partial block is garbled on its way into the fold register'
+                % (sym, tsym, at - y.value, 'outside the data section' if row is None else 'whose 16 selector bytes (%s) are not a byte shift' % row.hex()), key='T-SHF-ROWS|%s|%#x|rem%d' % (sym, i.addr - f.entry, o),
+                sample='%s: remainder row %s%+d = shift by %d' % (sym, tsym, at - y.value, d) if d is not None and o == lo and sym.endswith('_by4') else None)
+    return True
+
+
 def check(rep, families, floor):
     R = rep.rule('T-SHF-ROWS', 'every 16-byte selector row that a CRC kernel can read from a shift table at an offset const + k*len (len ranging over the interval the branch conditions leave at that load) is a pure byte '
                  'shift of the 16 lanes: the length dispatch never sends a length to a path whose table row is not a shift (e.g. the row for "shift by 0" / "shift by 16" that several tables do not contain)',
@@ -41,6 +71,7 @@ def check(rep, families, floor):
         lenreg = bounds.len_reg(sym, fam)
         L = None
         bd = None
+        RI = None
         for x in info['accesses']:
             i = x.insn
             if x.kind != 'load' or x.size != 16 or x.addr[0] != 'P' or provenance.base_tag(x.addr) != 'GLOBAL':
@@ -68,12 +99,14 @@ def check(rep, families, floor):
             if tgt is None:
                 continue
             tsec, tsym, off0 = tgt
-            if not (set(rest) <= {1, lenreg + '@entry'}) or not rest.get(lenreg + '@entry'):
-                nund += 1
-                continue
             bst = bd.IN.get(i.addr)
-            if bst is None or bst.nlo is None or bst.nhi is None:
-                nund += 1
+            if not (set(rest) <= {1, lenreg + '@entry'}) or not rest.get(lenreg + '@entry') or bst is None or bst.nlo is None or bst.nhi is None:
+                # the offset is not an affine function of the length (e.g. the remainder a count register holds behind the fold loops): REMINT intervals
+                if RI is None:
+                    RI = remint.RemInt(u, f, lenreg)
+                    RI.run()
+                if not remainder_rows(R, RI, u, f, sym, i):
+                    nund += 1
                 continue
             c, k = rest.get(1, 0), rest[lenreg + '@entry']
             y = u.elf.syms.get(tsym)
@@ -91,4 +124,4 @@ def check(rep, families, floor):
                 R.check(d is not None, '%s: %s' % (u.name, u.where(i, f)), '%s: a buffer of %d bytes reaches this load of %s%+d, whose 16 selector bytes (%s) are not a byte shift: the partial block is garbled on its way '
                         'into the fold register' % (sym, n, tsym, o - y.value, row.hex()), key='T-SHF-ROWS|%s|%#x|%d' % (sym, i.addr - f.entry, n),
                         sample='%s: len %d -> row %s%+d = shift by %d' % (sym, n, tsym, o - y.value, d) if d is not None and n == bst.nlo and sym.endswith(('_by8', '_01')) else None)
-    R.notes.append('%d row loads whose offset depends on loop state (the remainder after the fold loops) are not decided' % nund)
+    R.notes.append('%d row loads whose offset depends on loop state and that the interval domain (tools/remint.py) does not bound are not decided' % nund)
